@@ -709,10 +709,16 @@ class MementoFunctionHashRule(HashRule):
             )
 
     def compute_hash(self) -> Optional[str]:
+        # A modifier clone (partial, force_local, ...) of a function with an automatically
+        # computed version stands for that function: hash it like the function itself, so
+        # that the result does not depend on the name through which it was reached.
+        memento_fn = getattr(self.memento_fn, "_auto_version_source", None)
+        if memento_fn is None:
+            memento_fn = self.memento_fn
         return (
-            self.memento_fn.explicit_version
-            if self.memento_fn.explicit_version is not None
-            else self.memento_fn.code_hash
+            memento_fn.explicit_version
+            if memento_fn.explicit_version is not None
+            else memento_fn.code_hash
         )
 
     def did_change(self) -> bool:
